@@ -53,11 +53,15 @@ TypeOf(v)  == IF v.k = "obj" THEN v.cls ELSE v.k
 
 \* ---- spec grammar (what the harness turns into real glom specs) ----------------------
 SPath(text, segs) == [op |-> "path", text |-> text, segs |-> segs]   \* 'a.b' (segs = text.split('.'))
-SProbe(f)         == [op |-> "probe", f |-> f]        \* custom spec: observes its scope, yields, returns f(target)
+SProbe(f)         == [op |-> "probe", f |-> f, r |-> FALSE]   \* custom spec: observes its scope, yields, returns f(target)
+SRProbe           == [op |-> "probe", f |-> "id", r |-> TRUE] \* ... whose __repr__ is a yield point too: rendering the error
+                                                             \* trace (str(exc)) of a failed call is then a step of the interleaving
 SOpcall(f)        == [op |-> "opcall", f |-> f]       \* the op callable of a Fold: yields, returns f(item)
 SNest(call)       == [op |-> "nest", call |-> call]   \* custom spec whose glomit calls glom() re-entrantly
 STuple(c)         == [op |-> "tuple", c |-> c]        \* (s1, s2, ..)
-SDict(items)      == [op |-> "dict", items |-> items] \* {'k': s, ..}; items: sequence of <<key string, spec>>
+SDict(items)      == [op |-> "dict", items |-> items, sp |-> "dict"]   \* {'k': s, ..}; items: sequence of <<key string, spec>>
+SInvDict(items)   == [op |-> "dict", items |-> items, sp |-> "invoke"] \* Invoke(kwfn).specs(k1=s1).specs(k2=s2)..: the same dict, built
+                                                                      \* step by step as keyword arguments of one Invoke object
 SEach(sp, c)      == [op |-> "each", sp |-> sp, c |-> c]   \* sp = "list": [c]    sp = "iter": Iter(c).all()
 SCoal(c, d)       == [op |-> "coal", c |-> c, d |-> d]     \* Coalesce(*c, default=..); d = [has, v]
 SAcc(kind, f)     == [op |-> "acc", kind |-> kind, f |-> f] \* "group": Group([Probe(f)])  "fold": Fold(T, list, op)
@@ -65,6 +69,8 @@ SFill(c)          == [op |-> "fill", c |-> c]         \* Fill(c)
 SBind(name, c)    == [op |-> "bind", name |-> name, c |-> c]   \* S(name=Spec(c))
 SRead(name)       == [op |-> "read", name |-> name]   \* S[name]
 SArgList(c)       == [op |-> "arglist", c |-> c]      \* a list ARGUMENT holding sub-specs: default=[s1, s2] (rebuilt per evaluation)
+SLast(init)       == [op |-> "lastvar", init |-> init]   \* (S(v=Vars({'n': init})), [A.v.n], S.v.n): a scope variable
+                                                        \* object created per evaluation, assigned per item, read at the end
 SInvoke(c, k, v)  == [op |-> "invoke", c |-> c, k |-> k, v |-> v]   \* Invoke(kwfn).star(kwargs=c).constants(k=v); kwfn(**kw) = dict(kw)
 \* Coalesce default: none, a constant (d.v), or a list argument with sub-specs (d.s = <<SArgList(..)>>)
 NoDefault         == [has |-> FALSE, v |-> VNone, s |-> <<>>]
@@ -72,9 +78,21 @@ Default(v)        == [has |-> TRUE, v |-> v, s |-> <<>>]
 DefaultArgs(c)    == [has |-> TRUE, v |-> VNone, s |-> <<SArgList(c)>>]
 \* via = "glom": glom.glom(t, spec, scope=sc) (default registry);  via = "glommer": G.glom(t, spec)
 \* through ONE shared Glommer instance G (its own registry: module-level registrations do not apply)
+\* via = "spec": SP.glom(t, scope=sc) through ONE Spec object SP = Spec(spec) per sid
 Call(t, sc, sid, spec) == [t |-> t, sc |-> sc, sid |-> sid, spec |-> spec, via |-> "glom"]
+SCall(t, sc, sid, spec) == [t |-> t, sc |-> sc, sid |-> sid, spec |-> spec, via |-> "spec"]
 GCall(t, sid, spec)    == [t |-> t, sc |-> <<>>, sid |-> sid, spec |-> spec, via |-> "glommer"]
 RegsFor(via, regs)     == IF via = "glommer" THEN <<>> ELSE regs
+RegistryOf(via)        == IF via = "glommer" THEN "glommer" ELSE "glom"
+\* does the spec hold a probe whose __repr__ yields (not looking into nested calls)
+RECURSIVE HasR(_)
+HasR(n) ==
+  CASE n.op = "probe" -> n.r
+    [] n.op \in {"tuple", "arglist"} -> \E i \in 1..Len(n.c) : HasR(n.c[i])
+    [] n.op = "coal" -> (\E i \in 1..Len(n.c) : HasR(n.c[i])) \/ (n.d.s # <<>> /\ HasR(n.d.s[1]))
+    [] n.op = "dict" -> \E i \in 1..Len(n.items) : HasR(n.items[i][2])
+    [] n.op \in {"each", "fill", "bind", "invoke"} -> HasR(n.c)
+    [] OTHER -> FALSE
 
 \* ---- errors, outcomes, observations ---------------------------------------------------
 \* cls: most specific well-known class; ge: is it (already) a GlomError; at: path of the spec
@@ -137,7 +155,8 @@ RegDefs == << [r |-> "Aget1", ty |-> "A", op |-> "get", h |-> "h1", exact |-> FA
               [r |-> "Aget2", ty |-> "A", op |-> "get", h |-> "h2", exact |-> FALSE],
               [r |-> "Aiter", ty |-> "A", op |-> "iterate", h |-> "itvals", exact |-> FALSE],
               [r |-> "Aget3x", ty |-> "A", op |-> "get", h |-> "h3", exact |-> TRUE],
-              [r |-> "Aiterx", ty |-> "A", op |-> "iterate", h |-> "itrev", exact |-> TRUE] >>
+              [r |-> "Aiterx", ty |-> "A", op |-> "iterate", h |-> "itrev", exact |-> TRUE],
+              [r |-> "Akeys", ty |-> "A", op |-> "keys", h |-> "keysa", exact |-> FALSE] >>
 RegNames == {RegDefs[i].r : i \in 1..Len(RegDefs)}
 RegOf(r) == RegDefs[CHOOSE i \in 1..Len(RegDefs) : RegDefs[i].r = r]
 
@@ -174,9 +193,12 @@ IterItems(h, t) ==
     [] OTHER        -> <<>>
 \* children of a dict / attribute object as the wildcard sees them (keys handler, then the
 \* 'get' handler per key)
-KidsOf(cur, hget) ==
+\* ("keysa": a registered keys handler that lists only the attribute 'a')
+KidsOf(cur, hkeys, hget) ==
   IF cur.k = "dict" THEN [i \in 1..Len(cur.v) |-> cur.v[i][2]]
-  ELSE [i \in 1..Len(cur.v) |-> HGet(hget, cur, cur.v[i][1].s).v]
+  ELSE LET names == IF hkeys = "keysa" THEN SelectSeq([i \in 1..Len(cur.v) |-> cur.v[i][1].s], LAMBDA x : x = "a")
+                    ELSE [i \in 1..Len(cur.v) |-> cur.v[i][1].s] IN
+       [i \in 1..Len(names) |-> HGet(hget, cur, names[i]).v]
 
 \* Path.from_text: '*' is a wildcard only when PATH_STAR is on at creation time
 Parse(segs, st) ==
@@ -206,7 +228,8 @@ Walk(steps, i, cur, regs, at) ==
            ELSE IF r.exc = "UNMODELLED" THEN r ELSE Exc("PAE")
       [] s.op = "x" ->
            IF cur.k \notin {"dict", "obj"} THEN Exc("UNMODELLED")
-           ELSE WalkKids(steps, i + 1, KidsOf(cur, Resolve(regs, TypeOf(cur), "get")), regs, at, <<>>)
+           ELSE WalkKids(steps, i + 1, KidsOf(cur, Resolve(regs, TypeOf(cur), "keys"), Resolve(regs, TypeOf(cur), "get")),
+                         regs, at, <<>>)
       [] OTHER -> Exc("UNMODELLED")
 \* the rest of the path applied to every child; children on which it fails are dropped
 WalkKids(steps, j, kids, regs, at, acc) ==
@@ -264,6 +287,13 @@ Ev(n, at, t, env) ==
     [] n.op = "bind" -> LET r == Ev(n.c, Sub(at, 1), t, env) IN
                         IF r.ok THEN Res(TRUE, t, NoErr, r.obs, <<n.name, r.v>>) ELSE r
     [] n.op = "read" -> IF HasKey(env.vis, n.name) THEN Good(Lookup(env.vis, n.name), <<>>) ELSE Bad(PAE(at), <<>>)
+    [] n.op = "lastvar" ->
+         IF env.mode # "AUTO" THEN Bad(Unmodelled(at), <<>>)
+         ELSE LET h == Resolve(env.regs, TypeOf(t), "iterate") IN
+              IF h = "NONE" THEN Bad(Err("UnregisteredTarget", TRUE, Sub(at, 2), <<>>), <<>>)
+              ELSE IF h = "iterstr" THEN Bad(Unmodelled(at), <<>>)
+              ELSE LET items == IterItems(h, t) IN
+                   Good(IF items = <<>> THEN VInt(n.init) ELSE items[Len(items)], <<>>)
     [] n.op = "arglist" ->                                             \* argument mode: a new list per evaluation
          LET r == EvAll(n.c, 1, at, t, env, <<>>, <<>>) IN IF r.ok THEN Good(VList(r.v), r.obs) ELSE r
     [] n.op = "invoke" ->                                              \* kwfn(**<value of c>, k=v): a new dict
@@ -369,7 +399,7 @@ Child(P, f, cn, k, t, vis, av) == Push(SetTop(P, f), Frame(cn.op, f.lvl, Sub(f.a
 Depth(P) == Len(P.calls) - 1
 \* scope[TargetRegistry].get_handler(op, obj): the registry of the call the frame belongs to
 NeedHandler(P, f, ty, op, slot) ==
-  Stop(P, f, "tcheck", [NoPend EXCEPT !.ty = ty, !.op = op, !.slot = slot, !.reg = P.calls[f.lvl].via])
+  Stop(P, f, "tcheck", [NoPend EXCEPT !.ty = ty, !.op = op, !.slot = slot, !.reg = RegistryOf(P.calls[f.lvl].via)])
 
 \* accumulator of an acc frame: private (correct), in a module-level tree keyed by the spec
 \* node (mutant "globalacc", Group only), or kept on the spec object (mutant "acconspec", Fold only)
@@ -389,7 +419,9 @@ GM == Mutant = "globalmode"
 SetGMode(G, m) == IF GM THEN [G EXCEPT !.mode = m] ELSE G
 
 MCall(P, G, f, n) ==
-  CASE P.ctl = "eval" ->                       \* glom(): a fresh root scope, mode AUTO, caller's scope copied in
+  CASE f.ph = 1 ->                             \* the trace has been rendered: the failed call is over
+         X([PopS(P) EXCEPT !.st = "done", !.out = Outcome(FALSE, VNone, P.e, P.obs), !.calls = <<>>], SetGMode(G, f.sv))
+    [] P.ctl = "eval" ->                       \* glom(): a fresh root scope, mode AUTO, caller's scope copied in
          X(Push(SetTop(P, [f EXCEPT !.sv = G.mode]),
                 Frame(n.call.spec.op, f.lvl, <<>>, n.call.t, "AUTO", n.call.sc, <<>>, n.call.sid)),
            SetGMode(G, "AUTO"))
@@ -399,7 +431,9 @@ MCall(P, G, f, n) ==
          ELSE X([Ret(P, P.v) EXCEPT !.calls = SubSeq(@, 1, Len(@) - 1)], SetGMode(G, f.sv))
     [] OTHER ->                                \* the error leaves glom(): it is (made) a GlomError and finalized
          LET e1 == [P.e EXCEPT !.ge = TRUE] IN
-         IF Len(P.stack) = 1
+         IF Len(P.stack) = 1 /\ HasR(n.call.spec)   \* str(exc) calls the user __repr__ of a spec object: a yield point
+         THEN X([Stop(P, [f EXCEPT !.ph = 1], "yield", NoPend) EXCEPT !.e = e1], G)
+         ELSE IF Len(P.stack) = 1
          THEN X([PopS(P) EXCEPT !.st = "done", !.out = Outcome(FALSE, VNone, e1, P.obs), !.calls = <<>>], SetGMode(G, f.sv))
          ELSE LET below == P.stack[Len(P.stack) - 1] IN
               X([PopS(P) EXCEPT !.ctl = "err", !.e = Err(e1.cls, TRUE, below.at, <<e1>>), !.b = <<>>,
@@ -512,6 +546,14 @@ MInvoke(P, G, f, n) ==
          X(IF IsStrDict(P.v) THEN Ret(P, VDict(SetKey(P.v.v, VStr(n.k), n.v))) ELSE Raise(P, Unmodelled(f.at)), G)
     [] OTHER -> X(Raise(P, P.e), G)
 
+MLast(P, G, f, n) ==      \* the Vars object lives in the frames of this evaluation only
+  CASE f.ph = 0 -> IF f.dm # "AUTO" THEN X(Raise(P, Unmodelled(f.at)), G)
+                   ELSE X(NeedHandler(P, [f EXCEPT !.ph = 1], TypeOf(f.t), "iterate", "h"), G)
+    [] OTHER -> IF f.h = "NONE" THEN X(Raise(P, Err("UnregisteredTarget", TRUE, Sub(f.at, 2), <<>>)), G)
+                ELSE IF f.h = "iterstr" THEN X(Raise(P, Unmodelled(f.at)), G)
+                ELSE LET items == IterItems(f.h, f.t) IN
+                     X(Ret(P, IF items = <<>> THEN VInt(n.init) ELSE items[Len(items)]), G)
+
 MRead(P, G, f, n) ==
   X(IF HasKey(f.vis, n.name) THEN Ret(P, Lookup(f.vis, n.name)) ELSE Raise(P, PAE(f.at)), G)
 
@@ -536,7 +578,7 @@ MPath(P, G, f, n) ==
                   IF f.cur.k \notin {"dict", "obj"} THEN X(Raise(P, Unmodelled(f.at)), G)
                   ELSE IF f.hk = "" THEN X(NeedHandler(P, f, TypeOf(f.cur), "keys", "hk"), G)
                   ELSE IF f.h = "" THEN X(NeedHandler(P, f, TypeOf(f.cur), "get", "h"), G)
-                  ELSE LET ks == KidsOf(f.cur, f.h) IN
+                  ELSE LET ks == KidsOf(f.cur, f.hk, f.h) IN
                        X(Eval(P, [f EXCEPT !.ph = 3, !.kids = ks, !.acc = <<>>, !.h = "", !.si = f.i + 1,
                                            !.scur = IF ks = <<>> THEN VNone ELSE Head(ks)]), G)
              [] OTHER -> X(Raise(P, Unmodelled(f.at)), G)
@@ -570,6 +612,7 @@ Micro(P, G) ==
     [] op = "bind"  -> MBind(P, G, f, n)
     [] op = "read"  -> MRead(P, G, f, n)
     [] op = "arglist" -> MArgList(P, G, f, n)
+    [] op = "lastvar" -> MLast(P, G, f, n)
     [] op = "invoke" -> MInvoke(P, G, f, n)
     [] op = "path"  -> MPath(P, G, f, n)
     [] OTHER        -> X(Raise(P, Unmodelled(f.at)), G)
